@@ -2,7 +2,10 @@
 
 package raft
 
-import "io"
+import (
+	"io"
+	"time"
+)
 
 // vh_replicate_step: one AppendEntries round of replicateTo on an arbitrary
 // leader (log in a window), with an arbitrary response from the follower.
@@ -221,4 +224,56 @@ func vh_send_snapshot() {
 		vAssert(!stop && err == nil && s.nextIndex == preNext && postMatch == preMatch && s.failures == preFailures+1, "C12.snap.rejected-counted-no-effect")
 	}
 	vReach("snap.end")
+}
+
+// vh_heartbeat: one round of the heartbeat loop with an arbitrary follower
+// answer. C09 (the verify vote is the response's own Success), C13 (last
+// contact moves only on a response), C01.LEADER-TERM.
+func vh_heartbeat() {
+	r, env := vNewRaft("L", vRaftOpts{n: 2, w: 1, shaped: true})
+	vAssume(vInvBasic(r, env))
+	vMakeLeader(r, "L", 0)
+	peer := r.configurations.latest.Servers[1]
+	s := r.leaderState.replState[peer.ID]
+	vf := &verifyFuture{}
+	vf.init()
+	vf.votes, vf.quorumSize = 1, 3 // one more acknowledgement does not decide it
+	vf.notifyCh = r.verifyCh
+	s.notify[vf] = struct{}{}
+	s.notifyCh <- struct{}{}
+	vAssume(!s.lastContact.After(time.Now())) // contacts lie in the past
+	preContact := vTimeNs(s.lastContact)
+	respTerm, respOK, rpcFail := vU64("resp.term"), vBool("resp.success"), vBool("rpc.fail")
+	nRPC := 0
+	env.trans.onAppend = func(id ServerID, a *AppendEntriesRequest, resp *AppendEntriesResponse) error {
+		nRPC++
+		vAssert(id == peer.ID && a.Term == s.currentTerm && a.Term == r.currentTerm, "C01.heartbeat.carries-leader-term")
+		vAssert(len(a.Entries) == 0 && a.LeaderCommitIndex == 0 && a.PrevLogEntry == 0, "C05.heartbeat.carries-no-log-claims")
+		if rpcFail {
+			return errInjected
+		}
+		resp.Term, resp.Success = respTerm, respOK
+		return nil
+	}
+	vTimerMode(0)
+	stopCh := make(chan struct{})
+	vRunUntilBlocked(func() { r.heartbeat(s, stopCh) })
+	vAssert(nRPC == 1, "C09.heartbeat.one-rpc-per-notify")
+	_, stillWaiting := s.notify[vf]
+	if rpcFail {
+		vCover("heartbeat.rpc-error")
+		vAssert(stillWaiting && vf.votes == 1 && vf.notifyCh != nil, "C09.heartbeat.error-is-no-acknowledgement")
+		vAssert(vTimeNs(s.lastContact) == preContact, "C13.heartbeat.error-does-not-refresh-contact")
+	} else {
+		vAssert(!stillWaiting, "C09.heartbeat.future-voted-once")
+		vAssert(vTimeNs(s.lastContact) >= preContact, "C13.heartbeat.contact-refreshed")
+		if respOK {
+			vCover("heartbeat.ack")
+			vAssert(vf.votes == 2 && vf.notifyCh != nil, "C09.heartbeat.success-counts-one-vote")
+		} else {
+			vCover("heartbeat.nack")
+			vAssert(vf.votes == 1 && vf.notifyCh == nil, "C09.heartbeat.refusal-fails-the-future")
+		}
+	}
+	vReach("heartbeat.end")
 }
